@@ -348,7 +348,8 @@ def run_case(rng, tier, idx):
             g1, g2 = gen.build_panel(dA), gen.build_panel(dB)
             u1, u2 = gen.build_panel(dA), gen.build_panel(dB)
             u1.calc_k0(silent=True); u2.calc_k0(silent=True)
-            x_ = connections.calc_kt_kr(f1, f2, typ)
+            # the connection type is matched case-insensitively by the package: both spellings are the same request
+            x_ = connections.calc_kt_kr(f1, f2, typ.upper() if rng.random() < 0.3 else typ)
             y_ = connections.calc_kt_kr(g2, g1, typ)
             z_ = connections.calc_kt_kr(u1, u2, typ)
             for x, y, z in zip(x_, y_, z_):
